@@ -195,10 +195,30 @@ def trait_of(cfg):
     raise MachineryError("trait type " + t)
 
 
-def holder(cfg, via=None):
-    """via: None | "pickle" | "deepcopy": the trait DEFINITION object (CTrait) is round-tripped first (C14)"""
+def holder(cfg, via=None, shape=None):
+    """via: None | "pickle" | "deepcopy": the trait DEFINITION object (CTrait) is round-tripped first (C14)
+    shape: None: the trait is the class attribute x itself; "proto": x = PrototypedFrom("parent") where parent.x is the
+    trait (the assigned value is validated by the prototype's trait and stored on the object itself); "prop": x =
+    Property(trait) with a storing setter (the setter receives the validated value)"""
     w = world()
-    key = json.dumps(cfg, sort_keys=True) + "|" + str(via)
+    key = json.dumps(cfg, sort_keys=True) + "|" + str(via) + "|" + str(shape)
+    if key not in w["classes"] and shape is not None:
+        from traits import api as T
+        tr = trait_of(cfg)
+        n = len(w["classes"])
+        if shape == "proto":
+            parent = type("VP_%d" % n, (T.HasTraits,), {"x": tr})
+            cls = type("V_%d" % n, (T.HasTraits,), {"parent": T.Instance(parent, ()), "x": T.PrototypedFrom("parent"),
+                                                    "y": T.Int(7), "z": T.Str("z")})
+        else:
+            def _get_x(self):
+                return self.__dict__.get("_store", None)
+
+            def _set_x(self, value):
+                self.__dict__["_store"] = value
+            cls = type("V_%d" % n, (T.HasTraits,), {"x": T.Property(tr), "_get_x": _get_x, "_set_x": _set_x,
+                                                    "y": T.Int(7), "z": T.Str("z")})
+        w["classes"][key] = cls
     if key not in w["classes"]:
         from traits import api as T
         tr = trait_of(cfg)
@@ -235,8 +255,11 @@ def has_string(cfg):
 
 def execute(cfg, tok, route, via=None):
     w = world()
+    shape = route if route in ("proto", "prop") else None
+    if shape and (cfg["t"] in ("Map", "PrefixMap", "NoneT") or via is not None):
+        return None          # the shadow attribute of mapped traits is a feature of direct declarations
     try:
-        cls = holder(cfg, via)
+        cls = holder(cfg, via, shape)
     except (TypeError, AttributeError, __import__("pickle").PicklingError) as e:
         if via is None:
             raise
@@ -262,7 +285,11 @@ def execute(cfg, tok, route, via=None):
             before = None
 
         def run():
-            if route == "setattr":
+            if route in ("setattr", "proto", "prop"):
+                obj.x = v
+            elif route == "listened":
+                # the object has a handler on x, hence its own instance-level copy of the trait
+                obj.on_trait_change(_noop, "x")
                 obj.x = v
             elif route == "trait_setq":
                 obj.trait_setq(x=v)
@@ -287,7 +314,10 @@ def execute(cfg, tok, route, via=None):
         same = all((p is q) or (p == q) for p, q in zip(before, now))
         if not same:
             frame = 0
-    ctrait = obj.trait("x")
+    ctrait = obj.trait("x") if shape is None else (obj.parent.trait("x") if shape == "proto" else obj.trait("x").handler.inner_traits[0] if False else None)
+    if shape == "prop":
+        from traits.trait_converters import trait_from
+        ctrait = trait_from(trait_of(cfg))
     sh = proj(None)
     if cfg["t"] in ("Map", "PrefixMap") and a["tag"] == "store":
         try:
@@ -307,7 +337,11 @@ def execute(cfg, tok, route, via=None):
             "via": via or "", "skip": 0}
 
 
-ROUTES = ["setattr", "ctor", "trait_set", "trait_setq"]
+ROUTES = ["setattr", "ctor", "trait_set", "trait_setq", "proto", "prop", "listened"]
+
+
+def _noop():
+    pass
 
 
 def plain_cfg(c):
@@ -320,6 +354,8 @@ def case_fn(st, rep):
     if rep >= len(ROUTES):
         return None
     r = execute(plain_cfg(st["cfg"]), str(st["tok"]), ROUTES[rep])
+    if r is None:
+        return None
     return {"fail": None, "line": r, "sample": r}
 
 
